@@ -292,7 +292,7 @@ def ref_tlv(tag, value):
     if kind == 'cstr':
         return tlv(tag, value.encode('ascii') + b'\x00')
     if kind == 'ostr':
-        return tlv(tag, value.encode('ascii'))
+        return tlv(tag, value.encode('latin_1'))        # an octet string: the application value is one character per octet
     return tlv(tag, b'') if value else b''
 
 
